@@ -15,9 +15,11 @@ from billiard.exceptions import (SoftTimeLimitExceeded, Terminated, TimeLimitExc
 from harness import targets
 
 SCRATCH = os.environ.get('VERIF_SCRATCH') or '/var/tmp'
+SCALE = float(os.environ.get('VERIF_TIME_SCALE', '1'))     # allowance for a busy machine (upper bounds only)
 
 
 def _wait_file(path, bound=10):
+    bound *= SCALE
     t0 = time.time()
     while time.time() - t0 < bound:
         try:
@@ -31,6 +33,7 @@ def _wait_file(path, bound=10):
 
 
 def _outcome(h, bound):
+    bound *= SCALE
     """('ok', v) | ('exc', typename, text) | ('pending',) within bound seconds"""
     try:
         return ('ok', h.get(bound))
@@ -42,6 +45,7 @@ def _outcome(h, bound):
 
 
 def _gone(pid, bound=3.0):
+    bound *= SCALE
     t0 = time.time()
     while time.time() - t0 < bound:
         try:
@@ -89,12 +93,12 @@ def loss(sc):
                 break
             except (OSError, ValueError):
                 time.sleep(0.005)
-    bound = (10.0 if kind == 'map' else grace) + 0.8 + 6      # map_async jobs carry the 10 s default
+    bound = (10.0 if kind == 'map' else grace) + 0.8 + 6 * SCALE      # map_async jobs carry the 10 s default
     if it is None:
         o = _outcome(h, bound)
     else:
         try:
-            o = ('ok', it.next(timeout=bound))
+            o = ('ok', it.next(timeout=bound))      # (bound already scaled)
         except BTimeout:
             o = ('pending',)
         except BaseException as exc:      # noqa
@@ -171,7 +175,7 @@ def hard_map(sc):
     else:
         it = pool.imap(_Slow(0.7), list(range(4)))
         try:
-            ok = [it.next(timeout=8) for _ in range(4)] == [('ok', i) for i in range(4)]
+            ok = [it.next(timeout=8 * SCALE) for _ in range(4)] == [('ok', i) for i in range(4)]
         except BaseException:      # noqa
             ok = False
     after = pool.apply_async(targets.pid_task, (1,))
@@ -244,7 +248,7 @@ def idleloss(sc):
             val = val[0]
     else:
         try:
-            val = it.next(timeout=10)
+            val = it.next(timeout=10 * SCALE)
             o = ('ok', val)
         except BTimeout:
             o = ('pending',)
@@ -293,7 +297,7 @@ def recycle(sc):
         o = ('ok', None)
         try:
             for _ in range(N):
-                pairs.append(it.next(timeout=6))
+                pairs.append(it.next(timeout=6 * SCALE))
         except BTimeout:
             o = ('pending',)
         except BaseException as exc:      # noqa
